@@ -26,6 +26,13 @@ func init() {
 		p := p
 		props[p] = prop{Run: func(seed uint64, n int, tier string) { runFaults(p, seed, n, tier) },
 			Replay: func(id string, raw json.RawMessage) {
+				if bytes.Contains(raw, []byte(`"hello_kind"`)) {
+					var nc ncCase
+					if json.Unmarshal(raw, &nc) == nil {
+						runNCCase(id, &nc)
+					}
+					return
+				}
 				var c faultCase
 				if json.Unmarshal(raw, &c) == nil {
 					runFaultCase(id, &c)
@@ -96,7 +103,37 @@ func runFaults(prop string, seed uint64, n int, tier string) {
 		}
 		cases = append(cases, &b)
 	}
-	parallel(len(cases), func(i int) { runFaultCase(caseID(prop, seed, i), cases[i]) })
+	// NETCONF RPCs whose reply comes after the client's timeout (or never), followed by RPCs that
+	// are answered on time: the timed-out RPC fails with a timeout, the late reply is not handed to
+	// a later RPC (recovery clause for NETCONF)
+	var ncs []*ncCase
+	if prop == "C05" {
+		for i := 0; i < n/3; i++ {
+			r := rng.Fork()
+			c := genNC("C08", r)
+			c.Prop = "C05"
+			c.ChunkMode = []int{0, 2, 4}[c.ChunkMode%3]
+			late := false
+			for j := range c.Ops {
+				if c.Ops[j].Beh != 0 {
+					late = true
+				}
+			}
+			if !late {
+				c.Ops[r.Intn(len(c.Ops))].Beh = 1 + r.Intn(2)
+				c.Ops = append(c.Ops, genNCOps(r, 1+r.Intn(3), false)...)
+			}
+			ncs = append(ncs, c)
+		}
+	}
+	nf := len(cases)
+	parallel(nf+len(ncs), func(i int) {
+		if i < nf {
+			runFaultCase(caseID(prop, seed, i), cases[i])
+		} else {
+			runNCCase(caseID(prop, seed, i), ncs[i-nf])
+		}
+	})
 }
 
 type faultRun struct {
